@@ -28,6 +28,9 @@ type control struct {
 		Old  string `json:"old"`
 		New  string `json:"new"`
 	} `json:"edits,omitempty"`
+	// Patch: a unified diff (path relative to the verif directory, e.g. a seeded
+	// change) applied to temporary copies of the files it names.
+	Patch  string `json:"patch,omitempty"`
 	Expect string `json:"expect"` // prefix of rule:construct expected to be not-HOLDS
 	Why    string `json:"why"`    // the concrete failing history this edit corresponds to
 }
@@ -116,6 +119,18 @@ func runControls(verifDir, repo, id string, baseline map[string]bool) []controlR
 				}
 				content[abs] = strings.Replace(src, e.Old, e.New, 1)
 			}
+			if c.Patch != "" {
+				patched, err := applyPatchToCopies(filepath.Join(verifDir, c.Patch), repo, filepath.Join(tmp, fmt.Sprintf("p%d", i)))
+				if err != nil {
+					res.Outcome = "not-applicable" // the patch no longer applies to this tree
+					res.Why = c.Why + " (" + err.Error() + ")"
+					results[i] = res
+					return
+				}
+				for abs, src := range patched {
+					content[abs] = src
+				}
+			}
 			n := 0
 			for abs, src := range content {
 				f := filepath.Join(tmp, fmt.Sprintf("c%d_%d.go", i, n))
@@ -177,4 +192,49 @@ func runControls(verifDir, repo, id string, baseline map[string]bool) []controlR
 	}
 	wg.Wait()
 	return results
+}
+
+// applyPatchToCopies copies the files a unified diff names from the repository
+// into dir, applies the diff there with patch(1), and returns the patched
+// contents keyed by the absolute repository path.
+func applyPatchToCopies(patchFile, repo, dir string) (map[string]string, error) {
+	raw, err := os.ReadFile(patchFile)
+	if err != nil {
+		return nil, err
+	}
+	var files []string
+	for _, line := range strings.Split(string(raw), "\n") {
+		if strings.HasPrefix(line, "+++ b/") {
+			files = append(files, strings.TrimSpace(strings.TrimPrefix(line, "+++ b/")))
+		}
+	}
+	if len(files) == 0 {
+		return nil, fmt.Errorf("no files in patch")
+	}
+	for _, f := range files {
+		src, err := os.ReadFile(filepath.Join(repo, f))
+		if err != nil {
+			return nil, err
+		}
+		dst := filepath.Join(dir, f)
+		if err := os.MkdirAll(filepath.Dir(dst), 0o755); err != nil {
+			return nil, err
+		}
+		if err := os.WriteFile(dst, src, 0o644); err != nil {
+			return nil, err
+		}
+	}
+	cmd := exec.Command("patch", "-p1", "-s", "--no-backup-if-mismatch", "-d", dir, "-i", patchFile)
+	if out, err := cmd.CombinedOutput(); err != nil {
+		return nil, fmt.Errorf("patch failed: %s", strings.TrimSpace(string(out)))
+	}
+	res := map[string]string{}
+	for _, f := range files {
+		b, err := os.ReadFile(filepath.Join(dir, f))
+		if err != nil {
+			return nil, err
+		}
+		res[filepath.Join(repo, f)] = string(b)
+	}
+	return res, nil
 }
